@@ -246,11 +246,8 @@ def invariant_obligations(ctx, facts, rule=None):
     if t[0] == "agg" and t[1][2] == "Some" and t[2][0][0] == "call" and t[2][0][1] == "std::iter::Iterator::cmp":
         a, bb_ = t[2][0][2]
         stored = a[0] == "call" and a[1].endswith("::chars") and models.field_path(a[2][0]) == "0"
-        probe = bb_[0] == "call" and bb_[1] == "std::iter::Iterator::flat_map" and bb_[2][0][0] == "call" and bb_[2][0][1].endswith("::chars") and bb_[2][0][2][0] == ("arg", 2) and bb_[2][1][0] == "closure"
-        if probe:
-            cb = facts.body(bb_[2][1][1])
-            ct = norm(cb.resolve_local(0))
-            probe = ct[0] == "call" and ct[1].endswith("::to_lowercase") and ct[2] == (("arg", 2),)
+        from .lowercase import is_lower_closure
+        probe = bb_[0] == "call" and bb_[1] == "std::iter::Iterator::flat_map" and bb_[2][0][0] == "call" and bb_[2][0][1].endswith("::chars") and bb_[2][0][2][0] == ("arg", 2) and is_lower_closure(facts, bb_[2][1])
         ok = stored and probe
     ctx.ob(R("CMP-LOWER"), "partial_cmp = Some(self.0.chars().cmp(other.chars().flat_map(to_lowercase)))", ok, fn=PC, site=fn_site(facts, PC), detail=det)
     # equality of keys (used by the derived PartialEq of Qualifiers / PurlParts / GenericPurl) must be the comparator's equality
@@ -266,6 +263,21 @@ def invariant_obligations(ctx, facts, rule=None):
         if et[0] == "call" and et[1] == "std::iter::Iterator::eq" and len(et[2]) == 2:
             a, b_ = et[2]
             okeq = a[0] == "call" and a[1].endswith("::chars") and models.field_path(a[2][0]) == "0" and b_[0] == "call" and b_[1] == "std::iter::Iterator::flat_map" and b_[2][0][0] == "call" and b_[2][0][2][0] == ("arg", 2)
+        if not okeq:
+            # matches!(self.partial_cmp(other), Some(Ordering::Equal)) and its spellings: true exactly on the path where the
+            # comparator returned Some(Equal)
+            eb_ = facts.body(pe[0])
+            rets = [(bb, n) for (bb, n) in models.returns(eb_)]
+            if rets and all(n[0] == "const" and isinstance(n[1], bool) for _, n in rets) and not eb_.back_edges():
+                trues = [bb for bb, n in rets if n[1] is True]
+                pcalls = [bb for bb, tt in eb_.calls() if callee_name(tt["callee"]) in (PC, "std::cmp::PartialOrd::partial_cmp")]
+                if len(trues) == 1 and len(pcalls) == 1 and [norm(eb_.resolve_operand(a)) for a in eb_.term(pcalls[0])["args"]] == [("arg", 1), ("arg", 2)]:
+                    at = [models.canon_atom(a) for _, a in atoms_at(eb_, trues[0])]
+                    some = any(a[0] == "callres" and a[1] in (PC, "std::cmp::PartialOrd::partial_cmp") and a[-1] == "Some" for a in at)
+                    equal = any(a[0] == "is" and a[-1] == "Equal" and "partial_cmp" in str(a[1]) for a in at)
+                    others = [a for a in at if not (a[0] == "callres" and a[-1] == "Some") and not (a[0] == "is" and a[-1] == "Equal")]
+                    # every other return is false: nothing else can yield true
+                    okeq = some and equal and not others
         ctx.ob(R("CMP-LOWER"), "QualifierKey == S  is  partial_cmp(..) == Some(Equal)  (whole-string, case-insensitive; no prefix or length shortcut)", okeq, fn=pe[0], site=fn_site(facts, pe[0]), detail=nshow(et)[:200])
     elif pe:
         ctx.ob(R("CMP-LOWER"), "one hand-written PartialEq<S> for QualifierKey", False, detail=str(pe))
